@@ -242,3 +242,16 @@ def hygiene(rep, res, entry, shape=True, purity=True, dtype=True, value=True, re
         R.rule_dtype(rep, res, entry)
     if refresh:
         R.rule_refresh(rep, res, entry)
+
+
+def typed_sites(rep, res, entry, rule="R-QTY"):
+    """each numpy-level +, −, comparison whose operands both carry a (non-trivial) unit and agree: a decided obligation"""
+    seen = set()
+    for ev in res.events("typed_op"):
+        k = (ev.loc, ev.text())
+        if k in seen:
+            continue
+        seen.add(k)
+        rep.holds(rule, f"{ev.d['op']} homogeneous", where=ev.loc, construct=ev.text()[:90], entry=entry, config=res.config,
+                  msg=f"both operands in [{ustr(ev.d['unit'])}]")
+    return len(seen)
